@@ -321,6 +321,109 @@ CLAIMS.update({
     },
 })
 
+CLAIMS.update({
+    'C07': {
+        'text': 'Thin claim, wiring only. (DEPFILE-WIRING) if the cc '
+                'compiler emits -MMD -MF <deps>, then under the same gcc '
+                'deps flavor the make handler passes deps, appends the '
+                'depfixer on the same file to the recipe, includes the '
+                'depfile with optional=True and registers it as a target '
+                '(so clean removes it); ninja sets deps=gcc and depfile; the '
+                'suffix agrees at all sites; clean covers every target. '
+                '(DEPFIX-TABLE) the depfixer state machine is evaluated '
+                'symbolically for all 16 (state, token) pairs: every '
+                'dependency is echoed and terminated by ":\\n", targets are '
+                'not echoed, truncated input is rejected. What real '
+                'compilers write and what Make does over edit histories is '
+                'not decided.',
+        'note': _TB + 'Not decided: the bulk of the property (real '
+                'compilers, Make re-reading, arbitrary histories).',
+        'technique': 'guard-scoped wiring checks + symbolic enumeration of '
+                     'a finite state machine by constant folding',
+    },
+    'C12': {
+        'text': 'Decides: (PATH-CTOR) the four path fields are assigned only '
+                'in BasePath.__init__, where the ".." containment raise and '
+                'the root-type raise dominate the assignment of suffix and '
+                'the stored value is the checked one; every string entry '
+                'point goes through __normpath, whose first step maps \\\\ '
+                'to /; every path-returning method builds its result through '
+                'the class constructor and carries root/destdir over; '
+                '(HASH-EQ) for all classes defining __eq__ and __hash__, '
+                'attributes read by __hash__ are a subset of those compared '
+                'by __eq__; (PATH-JSON) to_json writes 3 elements incl. the '
+                'directory flag, from_json reads indices 0..2 in constructor '
+                'order. The algebraic laws over all strings are not decided.',
+        'note': _TB + 'Not decided: relpath/append inverse, realise = join, '
+                'commonprefix/uniquetrees minimality over all strings.',
+        'technique': 'who-may-write + CFG dominance + attribute-set '
+                     'comparison of __eq__/__hash__',
+    },
+    'C14': {
+        'text': 'Thin claim, necessary conditions only. (FORWARD-FIELDS) '
+                'every slot of ForwardOptions is written for static '
+                'libraries and consumed by the final link; recurse() merges '
+                'and recurses into forwarded libs; libs = user libs + '
+                'forwarded libs (dependents first); packages, compile and '
+                'link options are forwarded; runtime/linktime deps recorded. '
+                '(RPATH-ORIGIN) the only rpath producer for build-dir '
+                'libraries returns an $ORIGIN-relative path on the same-root '
+                'branch, rpaths become -Wl,-rpath, shared libraries get a '
+                'bare-name soname whenever an output is known. Linking and '
+                'running real binaries is not decided.',
+        'note': _TB + 'Not decided: that binaries link and run, order '
+                'correctness for arbitrary DAGs.',
+        'technique': 'field writer/reader agreement + expression checks',
+    },
+    'C15': {
+        'text': 'Thin claim. (INSTALL-SYMMETRY) install and uninstall '
+                'iterate the same mapping (install_outputs.host.items()) '
+                'and compose destination paths identically for files and '
+                'for directory contents; installify builds <install root>/'
+                '<suffix> with destdir for host paths; DESTDIR variable is '
+                'declared iff the environment supports it; install_deps are '
+                'installed recursively; post-install rpath rewrite targets '
+                'the installed copy; make and ninja share all helpers; each '
+                'installable file class of the property has the documented '
+                'install root. The resulting file tree is not decided.',
+        'note': _TB + 'Not decided: what doppel/patchelf produce on disk.',
+        'technique': 'sibling agreement (install vs uninstall, make vs '
+                     'ninja) + constant tables of install roots',
+    },
+    'C19': {
+        'text': 'Decides: (EXEC-SCOPE) every exec/eval site is enumerated; '
+                'the script exec receives a fresh dict display with only '
+                '__file__ and __builtins__; (PUSH-PATH) exec inside '
+                'push_path, stack popped in finally, submodule returns the '
+                'exports of the entry pushed for that file, export writes to '
+                'the innermost entry; (REL-RESOLVE) relpath/buildpath '
+                'resolve against the running script\'s directory / matching '
+                'build directory; (X-ALIAS) --x- alias for every name, '
+                'toggle prefixes keep the optional x- group, extra args '
+                'saved and re-parsed. Run-time visibility over arbitrary '
+                'nesting is not decided.',
+        'note': _TB + 'Not decided: visibility probes over arbitrary '
+                'submodule trees; argparse behaviour.',
+        'technique': 'exec/eval who-may-call enumeration + lexical '
+                     'containment + regex structure check',
+    },
+    'C20': {
+        'text': 'MSBuild half and quoting tables only. (UUID-PERSIST) the '
+                'GUID map is loaded, looked up before uuid4 (CFG dominance), '
+                'new GUIDs stored and marked seen, save() writes all seen '
+                'keys and is on every normal path of msbuild.write after the '
+                'projects; (SLN-DEPS) the unknown-project raise dominates '
+                'the append; (WIN-QUOTE-TABLE) the Windows quoter\'s bad-'
+                'character alternatives cover space, tab, double quote and a '
+                'trailing backslash, backslash runs are doubled before a '
+                'quote. The 2n/2n+1 round trip over all strings is not '
+                'decided.',
+        'note': _TB + 'Not decided: quoting round trip under the MS C '
+                'runtime rules; split as inverse of join; GUID uniqueness.',
+        'technique': 'CFG dominance/must-pass + regex alternative analysis',
+    },
+})
+
 _PENDING = 'check not built yet in this session (design in DESIGN.md)'
 
 NOT_APPLICABLE = {
